@@ -54,6 +54,8 @@ static const char *EPW[] = { "swprintf_s", "vswprintf_s", "snwprintf_s", "vsnwpr
 #define NEP 14
 static char cbuf[8192]; static wchar_t wbuf[2048];
 static FILE *sink;                       /* memory stream for stream output */
+static FILE *osink; static int g_other;    /* a stream of the other orientation (an earlier write of the other family has fixed it): history for the stream entry points */
+static const char *epname(int wide, int ep);
 static FILE *win, *win2;                 /* wide-oriented input streams (real temp files) */
 static wchar_t *wsink_mem; static size_t wsink_len;
 static char *sink_mem; static size_t sink_len;
@@ -154,8 +156,8 @@ static void one(int wide, int ep, const char *fmt) {
     /* case encoding: an optional pad<N>: prefix stands for N literal 'x' characters */
     size_t npad = 0; while (fmt[npad] == 'x' && npad < 5000) npad++; if (npad < 64) npad = 0;
     char hx[200]; hx[0] = 0; for (int i = npad; fmt[i]; i++) sprintf(hx + 2 * (i - npad), "%02x", (unsigned char)fmt[i]); if (!fmt[npad]) strcpy(hx, "-");
-    char cs[260]; snprintf(cs, sizeof cs, "%s %s pad%zu:%s", wide ? "wide" : "narrow", (wide ? EPW : EPN)[ep], npad, hx);
-    const char *epn = (wide ? EPW : EPN)[ep];
+    char cs[260]; snprintf(cs, sizeof cs, "%s %s pad%zu:%s", wide ? "wide" : "narrow", epname(wide, ep), npad, hx);
+    const char *epn = epname(wide, ep);
     size_t fbytes = wide ? (wcslen((const wchar_t *)fp) + 1) * sizeof(wchar_t) : strlen(fmt) + 1;
     int c02 = strcmp(g_prop, "C09") != 0;
     for (int placement = 0; placement < (c02 ? 2 : 1); placement++) {
@@ -190,6 +192,9 @@ static void one(int wide, int ep, const char *fmt) {
     }
     }
 }
+
+static const char *epname(int wide, int ep) { static char b[64]; if (!g_other) return (wide ? EPW : EPN)[ep]; snprintf(b, sizeof b, "%s@%s-oriented-stream", (wide ? EPW : EPN)[ep], wide ? "byte" : "wide"); return b; }
+static void one_other(int wide, int ep, const char *fmt) { FILE *k = sink; sink = osink; g_other = 1; one(wide, ep, fmt); g_other = 0; sink = k; }
 
 int main(int argc, char **argv) {
     setvbuf(stdout, NULL, _IONBF, 0);
@@ -226,18 +231,20 @@ int main(int argc, char **argv) {
     } else {
         sink = open_memstream(&sink_mem, &sink_len); stdout = open_memstream(&sink_mem, &sink_len);
     }
+    { static char *om; static size_t ol; static wchar_t *wom; if (wide) { osink = open_memstream(&om, &ol); fputc('x', osink); } else { osink = open_wmemstream(&wom, &ol); fputwc(L'x', osink); } }
     struct sigaction sa; memset(&sa, 0, sizeof sa); sa.sa_sigaction = on_sig; sa.sa_flags = SA_NODEFER | SA_SIGINFO; sigaction(SIGSEGV, &sa, NULL); sigaction(SIGABRT, &sa, NULL); sigaction(SIGBUS, &sa, NULL); sigaction(SIGFPE, &sa, NULL);
     if (replay) {
-        int ep = -1; for (int i = 0; i < NEP; i++) if (!strcmp((wide ? EPW : EPN)[i], argv[3])) ep = i;
+        int ep = -1, other = strchr(argv[3], '@') != NULL; char epb[64]; snprintf(epb, sizeof epb, "%.*s", (int)strcspn(argv[3], "@"), argv[3]);
+        for (int i = 0; i < NEP; i++) if (!strcmp((wide ? EPW : EPN)[i], epb)) ep = i;
         static char fmt[5200]; int n = 0; const char *enc = argv[4];
         if (!strncmp(enc, "pad", 3)) { long np = atol(enc + 3); for (; n < np; n++) fmt[n] = 'x'; enc = strchr(enc, ':') + 1; }
         if (strcmp(enc, "-")) for (int k = 0; enc[2 * k]; k++) { unsigned v; sscanf(enc + 2 * k, "%2x", &v); fmt[n++] = v; } fmt[n] = 0;
         if (ep < 0) return 2;
         /* a case is replayed as the history it was found in: an accepted, conversion-free format of the same length (hence at the
          * same address) goes through the same entry point first, so that a verdict cached from an earlier call shows again */
-        { static char neutral[5200]; memset(neutral, 'x', n); neutral[n] = 0; one(wide, ep, neutral); nsig = 0; n_viol = 0; }
+        { static char neutral[5200]; memset(neutral, 'x', n); neutral[n] = 0; if (other) one_other(wide, ep, neutral); else one(wide, ep, neutral); nsig = 0; n_viol = 0; }
         verbose = 1; FILE *keep = stdout; (void)keep;
-        one(wide, ep, fmt);
+        if (other) one_other(wide, ep, fmt); else one(wide, ep, fmt);
         if (nsig) { fprintf(out, "VERDICT violation %s\n", sigs[0]); return 1; }
         fprintf(out, "VERDICT ok\n"); return 0;
     }
@@ -251,7 +258,8 @@ int main(int argc, char **argv) {
             long t = c; for (int i = 0; i < len; i++) { fmt[i] = alpha[t % na]; t /= na; } fmt[len] = 0;
             nformats++;
             for (int ep = 0; ep < NEP; ep++) one(wide, ep, fmt);
-            if ((nformats & 255) == 0) { rewind(sink); fflush(stdout); rewind(stdout); }
+            one_other(wide, 6, fmt); one_other(wide, 7, fmt);            /* fprintf_s/vfprintf_s (fwprintf_s/vfwprintf_s) on a stream of the other orientation */
+            if ((nformats & 255) == 0) { rewind(sink); fflush(stdout); rewind(stdout); rewind(osink); }
         }
     }
     /* the same short formats behind long literal prefixes (lengths around the RSIZE limits of a bounded pre-scan) */
